@@ -422,6 +422,8 @@ func (d *driver) explore(from int, noEvidence, noMin bool) int {
 	groups := map[string]*found{}
 	var order []string
 	nres := 0
+	var slowMs int64
+	slowRun := -1
 	troubles := []string{}
 	var notes []string
 	for w := 0; w < W; w++ {
@@ -435,6 +437,9 @@ func (d *driver) explore(from int, noEvidence, noMin bool) int {
 		for i := range rs {
 			r := &rs[i]
 			nres++
+			if r.WallMs > slowMs {
+				slowMs, slowRun = r.WallMs, r.Run
+			}
 			if r.Trouble != "" {
 				troubles = append(troubles, fmt.Sprintf("run %d (seed %d): %s", r.Run, r.RunSeed, r.Trouble))
 			}
@@ -541,6 +546,7 @@ func (d *driver) explore(from int, noEvidence, noMin bool) int {
 			troubles = append(troubles, "evidence: "+err.Error())
 		}
 	}
+	fmt.Printf("slowest run: %d (%.1fs)\n", slowRun, float64(slowMs)/1000)
 	fmt.Printf("%s: %d runs, %d builds, %d distinct non-trivial cases, %.1fs wall, %d violation classes\n", d.prop, nres, counters["builds"], len(distinct), wall.Seconds(), nviol)
 	for _, l := range violationLines {
 		fmt.Println(l)
